@@ -13,7 +13,7 @@ for d in sorted(glob.glob(os.path.join(os.path.dirname(__file__), "..", "seeded"
         # first non-title line of the README
         for l in readme.splitlines():
             l = l.strip()
-            if l and not l.startswith("#"):
+            if l and not l.startswith("#") and not l.startswith("Property:"):
                 what = l
                 break
     what = re.sub(r"\s+", " ", what)[:170]
